@@ -654,6 +654,13 @@ func (f *frame) loopWrites(l *loopInfo) (hvs []string, all bool, allocs bool) {
 					for _, h := range hs {
 						set[h] = true
 					}
+					if root, _ := storeRoot(in.Addr); root != nil {
+						if a, ok := root.(*ssa.Alloc); ok && (depth > 0 || inBody(a.Block())) {
+							// the object is allocated inside the loop: objects that
+							// exist at loop entry are not written through this store
+							continue
+						}
+					}
 					if len(hs) == 1 {
 						b, isSl := storeRoot(in.Addr)
 						addBase(hs[0], b, isSl, depth == 0)
@@ -1151,6 +1158,38 @@ func (f *frame) ghostResults(st *State) Val {
 // (range loops name their phi "rangeint.iter"; the source name only appears
 // in a DebugRef inside the header block).
 func bindHeaderNames(st *State, header *ssa.BasicBlock) {
+	// `for j := range slice`: SSA keeps a hidden counter (phi, starts at -1) and
+	// computes j = counter + 1 in the header; the source name j only appears in
+	// the body. At the loop head j denotes the index about to be tested.
+	for _, in := range header.Instrs {
+		b, ok := in.(*ssa.BinOp)
+		if !ok || b.Op != token.ADD {
+			continue
+		}
+		phi, ok := b.X.(*ssa.Phi)
+		c, ok2 := b.Y.(*ssa.Const)
+		if !ok || !ok2 || phi.Block() != header || phi.Comment != "rangeindex" || c.Value == nil || c.Value.ExactString() != "1" {
+			continue
+		}
+		pv, ok := st.env[phi].(*Term)
+		if !ok {
+			continue
+		}
+		for _, ref := range *b.Referrers() {
+			d, ok := ref.(*ssa.DebugRef)
+			if !ok || d.IsAddr {
+				continue
+			}
+			if id, ok := d.Expr.(*ast.Ident); ok {
+				one := "1"
+				s := "(+ " + pv.S + " " + one + ")"
+				if strings.HasPrefix(pv.Sort, "(_ BitVec") {
+					s = "(bvadd " + pv.S + " (_ bv1 " + strings.TrimSuffix(strings.TrimPrefix(pv.Sort, "(_ BitVec "), ")") + "))"
+				}
+				st.names[id.Name] = &Term{s, pv.Sort, pv.T}
+			}
+		}
+	}
 	for _, in := range header.Instrs {
 		d, ok := in.(*ssa.DebugRef)
 		if !ok || d.IsAddr {
